@@ -5,6 +5,7 @@
    Model assumptions A1-A3 (little-endian, 24-byte input_event with fields at
    16/18/20, whole writes and min(24, available) reads) are stated at the top of
    Wire.v and CHECKED on the platform by the `wire` harness engine. *)
+From TM Require LoopEndToEnd Loop LoopEnv LoadedWf MapperProv.
 From TM Require EndToEnd Base Json RustOps Mapper Monitors MapperInv Convert LoaderCheck.
 From TM Require Import Wire WireSpec WireLemmas SpecKernelKeys.
 From TMGen Require Import KeyTable.
@@ -117,6 +118,30 @@ Theorem C18_every_mapper_output_is_encodable :
       known_batch batch = true /\ fits_u16 batch = true /\ decode_stream (encode_batch batch) = batch.
 Proof. exact EndToEnd.loaded_layout_outputs_are_encodable. Qed.
 Print Assumptions C18_every_mapper_output_is_encodable.
+
+
+(* ... and by everything the event loop writes: in EVERY run of the per-device
+   loop (any answer script: batching, time-outs, tablet events, errors) on a
+   layout the loader accepted, with key events of known keys read, EVERY send -
+   step output, release-all batch or timer chord - is a batch of known keys, so
+   it is written as well-formed records and read back identically. *)
+Theorem C18_every_loop_write_is_encodable :
+  forall (is_action : Base.key -> bool) (j : Json.json) (L : Mapper.layout)
+         (rs : list Loop.resp) (cs : list Loop.call) (o : Loop.outcome) (k : nat) (evs : list event),
+    Convert.load j = RustOps.Ok L ->
+    Loop.run is_action L rs = (cs, o) ->
+    (forall e, In e (LoopEnv.kbd_reads (combine cs rs)) -> LoaderCheck.known_key (MapperProv.ev_key e) = true) ->
+    nth_error cs (S k) = Some (Loop.CSend evs) ->
+    known_batch evs = true /\ fits_u16 evs = true /\ decode_stream (encode_batch evs) = evs.
+Proof.
+  intros ia j L rs cs o k evs Hload Hrun Hkeys Hsend.
+  assert (Hk : known_batch evs = true).
+  { eapply (LoopEndToEnd.loop_sends_are_known_batches ia L);
+      [eapply LoadedWf.loaded_is_wf_basic; exact Hload | eapply LoadedWf.accepted_is_wf; exact Hload
+      | exact Hrun | exact Hkeys | exact Hsend]. }
+  split; [exact Hk|]. split; [apply known_batch_fits; exact Hk | apply (proj1 (roundtrip_full evs Hk))].
+Qed.
+Print Assumptions C18_every_loop_write_is_encodable.
 
 Example C18_example_batch :
   known_batch [Pressed 30%N; Released 700%N] = true
